@@ -317,6 +317,28 @@ func runC20(c *Ctx) {
 
 	// R5 acknowledged puts reach the new slot
 	c.Rule("R5")
+	// a reset starts from an empty alternate slot: in shared-datastore mode prepareAltDs returns only
+	// what emptySharedAltDs returns (a failed teardown of the previous reset is deliberately
+	// ignored and repaired here)
+	{
+		f := c.Fn(rkFn + "prepareAltDs")
+		cf := f.CFG()
+		info := f.Info()
+		for i, ret := range cf.Returns() {
+			if len(ret.Results) != 1 {
+				continue
+			}
+			factory, _ := cf.Guarded(cf.LocOf(ret), func(ft eng.Fact) bool {
+				x, isNilF, ok := ft.NilFact()
+				return ok && !isNilF && eng.IsField(info, x, rkT+".createDs")
+			})
+			if factory {
+				continue
+			}
+			_, isEmpty := eng.IsCallTo(info, ret.Results[0], rkFn+"emptySharedAltDs")
+			c.Check(K(f.Name, "return#"+itoa(i)+" shared slot emptied"), ret.Pos(), isEmpty, "in shared-datastore mode every reset empties the alternate slot before using it", "a return outside the factory branch is not `return s.emptySharedAltDs(ctx)`")
+		}
+	}
 	// bufferKeys reports success only when every key was handed to the buffer
 	{
 		f := c.Fn(rkFn + "bufferKeys")
